@@ -82,6 +82,16 @@ def families(m, depth, width):
     for k in range(width):
         t = m.Ite(m.LT(t, j), t, m.Plus(t, m.Int(1)))
     out.append(("int-ite-diamond", m.LE(t, j)))
+    # bit-vector ITEs nested directly in their then-branch (width accessors must not follow them by recursion)
+    t = v
+    for k in range(depth):
+        t = m.Ite(a if k % 2 else b, t, w)
+    out.append(("bv-ite-then-chain", m.BVULE(m.BVAdd(t, w), w)))
+    # products whose factor shares its sub-terms (tree size 2^width)
+    t = i
+    for k in range(width):
+        t = m.Times(m.Int(3), m.Ite(m.LT(t, j), t, m.Minus(t, j)))
+    out.append(("times-ite-diamond", m.LE(t, j)))
     # string operators sharing their arguments (tree size 3^width)
     from pysmt.typing import STRING
     s0 = m.Symbol("str_s", STRING)
@@ -190,14 +200,14 @@ def work_check(tier, seed):
             # message included)
             from pysmt.exceptions import PysmtTypeError
             t = f.get_type()
-            try:
-                if t.is_bool_type():
-                    m.Plus(f, m.Int(1))
-                else:
-                    m.And(f, m.TRUE())
-            except (PysmtTypeError, AttributeError):
-                return
-            raise AssertionError("ill-typed construction accepted")
+            attempts = [lambda: m.Plus(f, m.Int(1)), lambda: m.Equals(f, m.TRUE()), lambda: m.LT(f, f)] if t.is_bool_type() else \
+                [lambda: m.And(f, m.TRUE()), lambda: m.Iff(f, f), lambda: m.Ite(f, f, f)]
+            for a in attempts:
+                try:
+                    a()
+                except (PysmtTypeError, AttributeError):
+                    continue
+                raise AssertionError("ill-typed construction accepted")
         ops.append(("ill-typed-construction-rejected", rejected))
         for oname, fn in ops:
             n += 1
@@ -235,7 +245,7 @@ def work_check(tier, seed):
     pop_env()
     d0 = 600 if tier == "quick" else 1500
     times = {}
-    for d in (d0, 4 * d0):
+    for d in (d0, 2 * d0, 4 * d0):
         e2 = fresh()
         m2 = e2.formula_manager
         f2 = families(m2, d, 4)[0][1]
@@ -243,21 +253,35 @@ def work_check(tier, seed):
                           ("prenex", lambda: prenex_normal_form(f2, e2)), ("aig", lambda: aig(f2, e2))):
             with warnings.catch_warnings():
                 warnings.simplefilter("ignore")
-                t1 = time.process_time()
-                fn()
-                times.setdefault(oname, []).append(time.process_time() - t1)
+                best = None
+                for _ in range(2):                     # the smaller of two runs: robust against a busy machine
+                    if _ == 1:
+                        # a second run needs an environment without the memoised results of the first
+                        e3 = fresh()
+                        f3 = families(e3.formula_manager, d, 4)[0][1]
+                        fn = {"cnf": lambda: cnf(f3, e3), "nnf": lambda: nnf(f3, e3), "simplify": lambda: f3.simplify(),
+                              "prenex": lambda: prenex_normal_form(f3, e3), "aig": lambda: aig(f3, e3)}[oname]
+                    t1 = time.process_time()
+                    fn()
+                    dt = time.process_time() - t1
+                    best = dt if best is None else min(best, dt)
+                    if _ == 1:
+                        pop_env()
+                times.setdefault(oname, []).append(best)
         pop_env()
         n += 1
-    for oname, (a, b) in times.items():
-        if b > 1.0 and b > 10 * max(a, 0.01):
+    for oname, (a_, b_, c_) in times.items():
+        # doubling the depth doubles linear work and quadruples quadratic work: reported only when BOTH doublings more than
+        # triple the time and the times are large enough to be measured
+        if a_ >= 0.1 and b_ > 3.2 * a_ and c_ > 3.2 * b_:
             viol.append({"key": "%s-time-quadratic-in-depth" % oname, "family": "bool-chain", "operation": oname,
-                         "cpu_seconds": {"depth %d" % d0: round(a, 2), "depth %d" % (4 * d0): round(b, 2)}})
+                         "cpu_seconds": {"depth %d" % d0: round(a_, 2), "depth %d" % (2 * d0): round(b_, 2), "depth %d" % (4 * d0): round(c_, 2)}})
     return {"name": "work", "bounded": True, "evaluations": n, "distinct_nontrivial": n,
-            "rule": "13 formula families (chains of depth %d over Boolean / arithmetic / bit-vector operators, ITE of every sort, string operators and "
+            "rule": "15 formula families (chains of depth %d over Boolean / arithmetic / bit-vector operators, ITE of every sort, string operators and "
                     "array stores; diamonds of width %d whose tree expansion has 2^%d nodes) x 15 operations (type check, rejection of an ill-typed construction on top, simplify, "
                     "substitute, free symbols, atoms, size, quantifier-freeness, logic detection, sorts, NNF, AIG, prenex, CNF, "
                     "DAG print + re-parse) under the default recursion limit of 1000: no RecursionError, callbacks executed "
-                    "<= 25 x distinct nodes, each within %d s of CPU time; growth of CNF / NNF / simplify / prenex / AIG on the Boolean chain from depth d to 4d measured in CPU time (a factor above 10 is reported)" % (depth, width, width, limit),
+                    "<= 25 x distinct nodes, each within %d s of CPU time; growth of CNF / NNF / simplify / prenex / AIG on the Boolean chain at depths d, 2d, 4d measured in CPU time (reported when both doublings more than triple it)" % (depth, width, width, limit),
             "samples": samples, "violations": viol[:8]}
 
 
@@ -305,6 +329,19 @@ def observations(env, f, rng_seed):
     hx, hy = m.Symbol("hist_x", INT), m.Symbol("hist_y", INT)
     hq = m.And(m.ForAll([hx], m.LT(m.Int(0), m.Plus(hx, hy))), m.Exists([hx], m.LE(hy, hx)))
     put("substitute-under-binder", lambda: hq.substitute({hy: m.Int(2)}).serialize())
+    # constructors with an argument of the wrong kind that equals (==) a value the constant caches may hold
+    def _kind(fn):
+        try:
+            return "accepted: %s" % fn()
+        except Exception as e:
+            return "rejected: %s" % type(e).__name__
+    # a formula that an earlier simplification RETURNED, met again inside a bigger one (simplification is not idempotent)
+    hz = m.Symbol("hist_z", INT)
+    ret = m.Times(m.Int(-1), m.Plus(hy, hx))
+    put("simplify-around-an-earlier-result", lambda: [m.Plus(ret, hz).simplify().serialize(), m.Plus(m.Times(m.Int(-1), m.Plus(hx, hy)), hz).simplify().serialize()])
+    put("refused-query-asked-twice", lambda: [_kind(lambda: env.sizeo.get_size(f, "no-such-measure")) for _ in range(2)])
+    put("constant-of-wrong-kind", lambda: [_kind(lambda: m.Real(True)), _kind(lambda: m.Real(False)), _kind(lambda: m.Int(7.0)),
+                                           _kind(lambda: m.Int(True)), _kind(lambda: m.String(7))])
     return out
 
 
@@ -314,6 +351,9 @@ def _history_substitutions(env):
     hq = m.And(m.ForAll([hx], m.LT(m.Int(0), m.Plus(hx, hy))), m.Exists([hx], m.LE(hy, hx)))
     hq.substitute({hy: m.Int(1)})
     hq.substitute({hy: m.Plus(hy, m.Int(7))})
+    m.Real(1), m.Real(0), m.Int(7), m.Int(1), m.Int(0)
+    m.Plus(m.Times(hx, m.Int(-1)), m.Times(hy, m.Int(-1))).simplify()
+    m.Plus(m.Times(hy, m.Int(-1)), m.Times(hx, m.Int(-1))).simplify()
 
 
 def history_check(tier, seed):
@@ -362,6 +402,12 @@ def history_check(tier, seed):
         n += 1
         if f.args():
             nontriv += 1
+        rq = o1.get("refused-query-asked-twice")
+        if isinstance(rq, list) and len(rq) == 2 and rq[0] != rq[1]:
+            # the answer to a query depends on the same query having been asked (and refused) just before
+            viol.append({"key": "history-dependent-result", "query": "refused-query-asked-twice", "formula": f.serialize()[:200],
+                         "first": rq[0], "second": rq[1]})
+            break
         if o1 != o1b:
             k = [k for k in o1 if o1[k] != o1b.get(k)]
             viol.append({"key": "repeated-call-differs", "query": k[0], "formula": f.serialize()[:300]})
@@ -435,6 +481,9 @@ def failure_check(tier, seed):
                 # a walk that fails exactly at its root (the children are done, the work list is already empty)
                 attempts.append(lambda: m.Plus(m.Symbol("root_a", INT), m.Symbol("root_b", INT)).substitute({m.Symbol("root_a", INT): m.Real(1)}))
                 attempts.append(lambda: m.LT(m.Symbol("root_a", INT), m.Int(1)).substitute({m.Symbol("root_a", INT): m.TRUE()}))
+                # a query the service refuses (unknown size measure), asked twice
+                attempts.append(lambda: env.sizeo.get_size(f, "no-such-measure"))
+                attempts.append(lambda: env.sizeo.get_size(f, "no-such-measure"))
                 for a in attempts:
                     try:
                         with warnings.catch_warnings():
@@ -452,7 +501,12 @@ def failure_check(tier, seed):
                 except Exception as e:
                     return "raises %s: %s" % (type(e).__name__, str(e)[:120])
             o.append([_obs(lambda: ra.substitute({rb: m.Int(5)})), _obs(lambda: m.LE(m.Plus(ra, m.Int(1)), rb).substitute({ra: m.Int(5)})),
-                      _obs(lambda: m.Plus(ra, rb).substitute({rb: m.Int(2)}))])
+                      _obs(lambda: m.Plus(ra, rb).substitute({rb: m.Int(2)})),
+                      _obs(lambda: env.sizeo.get_size(m.Plus(ra, rb), "no-such-measure")), _obs(lambda: env.sizeo.get_size(m.Plus(ra, rb)))])
+            # a refused query asked again at once must be refused again (the first refusal leaves no trace)
+            again = [_obs(lambda: env.sizeo.get_size(m.Plus(ra, rb), "no-such-measure")) for _ in range(2)]
+            if again[0] != again[1]:
+                viol.append({"key": "failing-call-left-a-trace", "query": "the same refused size query asked twice", "first": again[0], "second": again[1]})
             # the parser object itself after a failing script
             p1 = SmtLibParser(env)
             if twin == 1:
